@@ -48,6 +48,9 @@ def c_text(v):
     return sym('none') if v is None else [sym('some'), v.encode('utf-8') if isinstance(v, str) else bytes(v)]
 
 
+LINE_ALPHABET = set('ABCDEFGHIJKLMNOPQRSTUVWXYZabcdefghijklmnopqrstuvwxyz0123456789_.-~+%#$|=/')
+
+
 def add(res, ctx, calls, impl, relation, case):
     """queue a model call for batch evaluation"""
     calls.append((relation, case, impl))
@@ -251,6 +254,11 @@ def run(ctx, res):
                 ok, detail = oracle(line)
             except (ari.Bad, ValueError, UnicodeDecodeError) as e:
                 ok, detail = False, 'reference decoder rejects the line: %r' % (e,)
+            if ok:
+                # every token of a line is over the protocol's ASCII alphabet (text tokens: C05; markers, numbers, base64)
+                badc = sorted(set(c for c in line if c not in LINE_ALPHABET))
+                if badc:
+                    ok, detail = False, 'characters %r outside the token alphabet in the line' % (''.join(badc)[:20],)
             if not ok:
                 res.oracle_violations.append({'case': dict(case, line=line[:600]), 'detail': detail, 'key': {'kind': 'decode_mismatch', 'writer': case.get('writer')}})
             if deckind and len(line) < 20000:
